@@ -109,7 +109,8 @@ def dickson1_seq(ns, alpha, x):
     ns = list(ns)
     min_i = 0
     j = 0
-    out = np.empty((len(ns), *x.shape), dtype=x.dtype)
+    # integer x stays integer only when alpha is an integer, too
+    out = np.empty((len(ns), *x.shape), dtype=np.result_type(x.dtype, alpha))
     P0 = 2
     if ns[min_i] == 0:
         out[j] = 2
@@ -165,7 +166,8 @@ def dickson2_seq(ns, alpha, x):
     ns = list(ns)
     min_i = 0
     j = 0
-    out = np.empty((len(ns), *x.shape), dtype=x.dtype)
+    # integer x stays integer only when alpha is an integer, too
+    out = np.empty((len(ns), *x.shape), dtype=np.result_type(x.dtype, alpha))
     P0 = 1
     if ns[min_i] == 0:
         out[j] = 1
